@@ -412,6 +412,26 @@ func c19Fixed(c *C) {
 			return
 		}
 	}
+	// an argument that cannot be evaluated fails the execution - in {{ }} chains and in the filter tag, first or later
+	// filter of the chain, with autoescape on and off
+	for _, inner := range []string{
+		"{% filter add:failfn() %}b{% endfilter %}", "{% filter vprobe_a:iv.nosuch.deeper %}b{% endfilter %}", "{% filter lower|vprobe_b:failfn()|upper %}b{% endfilter %}",
+		"{% filter vprobe_a:\"lit\"|vprobe_b:failfn() %}b{% endfilter %}", "{% macro fm() %}{{ failfn() }}{% endmacro %}{% filter add:fm() %}b{% endfilter %}", "{% filter default:lst[failfn()] %}{% endfilter %}",
+		"{{ \"b\"|add:failfn() }}", "{{ \"b\"|vprobe_a:iv.nosuch.deeper }}", "{% with w=\"b\"|vprobe_a:failfn() %}x{% endwith %}", "{% filter vprobe_a:(failfn()) %}b{% endfilter %}",
+	} {
+		for _, wrap := range []string{"%s", "{%% autoescape off %%}%s{%% endautoescape %%}", "{%% autoescape on %%}%s{%% endautoescape %%}"} {
+			src := fmt.Sprintf(wrap, inner)
+			out, cerr, xerr := renderString(src, ctx)
+			c.Eval(1)
+			if cerr != nil {
+				continue // (a form that is not valid syntax proves nothing)
+			}
+			if xerr == nil {
+				c.Fail("routes-disagree-on-error", D{"source": src, "output": q(out), "why": "the argument of the filter cannot be evaluated (failing function / field of a number): ApplyFilter could not even be called, the execution must fail"})
+				return
+			}
+		}
+	}
 	// unregistered names never render silently
 	for _, src := range []string{"{{ sv|nosuchfilter }}", "{{ sv|upper|nosuchfilter:1 }}", "{% if sv|nosuchfilter %}x{% endif %}", "{% for i in lv|nosuchfilter %}x{% endfor %}", "{% with w=sv|nosuchfilter %}x{% endwith %}",
 		"{% set w = sv|nosuchfilter %}", "{{ ident(sv|nosuchfilter) }}", "{{ mp[sv|nosuchfilter] }}", "{% macro m(a=sv|nosuchfilter) %}{% endmacro %}", "{% firstof sv|nosuchfilter %}", "{% nosuchtag %}", "{% if 1 %}{% nosuchtag %}{% endif %}",
